@@ -155,3 +155,7 @@ func Symbolic() bool { return false }
 
 // Concretize fixes one representative value for s on this path (natively: identity).
 func Concretize(s string) string { return s }
+
+// PermuteRange switches symbolic permutation of map / sync.Map iteration order on or off
+// (natively a no-op: the Go runtime randomises it).
+func PermuteRange(on bool) {}
